@@ -163,6 +163,8 @@ def lib_unit(clsname, kind):
         header = V.sym("header", "bytes")
         is_file = V.choose([True, False], "is_file")
         open_fails = V.choose([False, True], "open-fails") if is_file else False
+        # overwrite=True recreates the file with the current magic: whatever an old file at that path contained is irrelevant
+        overwrite = V.choose([False, True], "overwrite")
         Path = I.ext_models["pathlib.Path"]
         Path.ns["is_file"] = Builtin("Path.is_file", lambda i, a, k: is_file)
         stream = Obj(I.StreamCls, {"path": None, "mode": "rb", "closed": False, "owned": True}, tag="stream")
@@ -170,6 +172,7 @@ def lib_unit(clsname, kind):
         def open_hook(I_, path, mode):
             if open_fails:
                 I_.raise_py("OSError", "cannot open")
+            stream.fields["opened"] = True
             return stream
         st.ghost["open_hook"] = open_hook
         I.StreamCls.ns["read"] = Builtin("read16", lambda i, a, k: header)
@@ -182,11 +185,12 @@ def lib_unit(clsname, kind):
             for d in ("_serialize", "_deserialize"):
                 q = f"{IO}:{d}_{kind}_v{v}"
                 I.stubs[q] = (lambda q_: lambda I_, fv, a, k: calls.setdefault("codec", []).append((q_, a)) or Opaque(f"obj:out:{q_}"))(q)
+        V.witness(lambda ev: {"op": "library-version", "cls": clsname, "overwrite": overwrite, "signature": f"library-version/{clsname}"})
         V.cover()
         cls = V.cls(f"{LIB}:{clsname}")
         I.target = f"{LIB}:{clsname}.__init__"
         try:
-            lib = I.call(cls, [V.sym("path", "str")], {})
+            lib = I.call(cls, [V.sym("path", "str")], {"overwrite": overwrite, "readonly": not overwrite})
         except PyExc as e:
             V.ensure("post/constructs", z3.BoolVal(False))
             return
@@ -194,12 +198,13 @@ def lib_unit(clsname, kind):
         ser, de = lib.fields.get("_serializer"), lib.fields.get("_deserializer")
         sq, dq = getattr(ser, "qual", None), getattr(de, "qual", None)
         f = z3.Function("bytes_startswith", BytesS, BytesS, z3.BoolSort())
-        legacy = z3.And(z3.BoolVal(is_file and not open_fails), f(header.z, FM.bz(b"ML10Library")))
+        legacy = z3.And(z3.BoolVal(is_file and not open_fails and not overwrite), f(header.z, FM.bz(b"ML10Library")))
         pair_v1 = sq == f"{IO}:_serialize_{kind}_v1" and dq == f"{IO}:_deserialize_{kind}_v1"
         pair_v2 = sq == f"{IO}:_serialize_{kind}_v2" and dq == f"{IO}:_deserialize_{kind}_v2"
         V.ensure("post/codec-pair-is-never-mixed", z3.BoolVal(pair_v1 or pair_v2))
         V.ensure("post/legacy-magic-selects-v1-else-v2", z3.If(legacy, z3.BoolVal(pair_v1), z3.BoolVal(pair_v2)))
-        V.ensure("post/header-stream-closed", z3.BoolVal(not is_file or open_fails or stream.fields["closed"]))
+        V.ensure("post/header-stream-closed", z3.BoolVal(not stream.fields.get("opened") or stream.fields["closed"]))
+        V.ensure("post/collection-is-told-to-overwrite-iff-asked", z3.BoolVal(calls.get("super") is not None and calls["super"][1].get("overwrite") is overwrite))
         sup = calls.get("super")
         enc = sup[1].get("value_encoder") if sup else None
         dec = sup[1].get("value_decoder") if sup else None
